@@ -49,7 +49,8 @@ def gen(rng, tier, ctx):
         op = rng.choice(LIST_OPS if kind == "list" else SET_OPS)
         vals = [rng.randrange(n_other) for _ in range(rng.randint(0, 3))]
         ops.append([op, vals, rng.randrange(8)])
-    return {"kind": kind, "n_other": n_other, "start": start, "start_form": rng.choice(["ctor", "assign", "append"]), "ops": ops}
+    return {"kind": kind, "n_other": n_other, "start": start, "start_form": rng.choice(["ctor", "assign", "append"]), "ops": ops,
+            "twins": rng.random() < 0.3}
 
 
 def witnesses():
@@ -57,6 +58,8 @@ def witnesses():
         "self-assignment-erases-field": {"kind": "list", "n_other": 3, "start": [0, 1], "start_form": "ctor", "ops": [["assign_self", [], 0]]},
         "augmented-assignment-erases-field": {"kind": "list", "n_other": 3, "start": [0], "start_form": "ctor", "ops": [["iadd", [1], 0]]},
         "assigned-list-order-and-duplicates-lost": {"kind": "list", "n_other": 4, "start": [], "start_form": "ctor", "ops": [["assign_new", [3, 0, 3, 1], 0]]},
+        "equal-elements-collapsed-on-slice-assignment": {"kind": "list", "n_other": 4, "start": [1], "start_form": "ctor", "twins": True,
+                                                         "ops": [["setslice", [0, 2], 0]]},
         "set-ior-erases-field": {"kind": "set", "n_other": 3, "start": [0], "start_form": "ctor", "ops": [["ior", [1], 0]]},
     }
 
@@ -69,19 +72,21 @@ def run(spec, ctx):
     SymbolGraph()
     kind = spec["kind"]
     named = {}
+    twins = bool(spec.get("twins"))
     if kind == "list":
-        others = [om.Org(f"o{i}") for i in range(spec["n_other"])]
+        # twins: value-equal but distinct instances (names repeat)
+        others = [(om.VOrg(f"t{i % 2}") if twins else om.Org(f"o{i}")) for i in range(spec["n_other"])]
         field, owner_name = "member_of", "p0"
     else:
-        others = [om.Person(f"q{i}") for i in range(spec["n_other"])]
+        others = [(om.VPerson(f"t{i % 2}") if twins else om.Person(f"q{i}")) for i in range(spec["n_other"])]
         field, owner_name = "members", "o0"
-    for o in others:
-        named[o.name] = o
+    for i, o in enumerate(others):
+        named[f"e{i}" if twins else o.name] = o
     start = [others[i] for i in spec["start"]]
     model = list(start) if kind == "list" else set(start)
-    ever = set(id(x) for x in start)
+    ever = set(id(x) for x in model)
     mk = (lambda xs: list(xs)) if kind == "list" else (lambda xs: set(xs))
-    Owner = om.Person if kind == "list" else om.Org
+    Owner = (om.VPerson if twins else om.Person) if kind == "list" else (om.VOrg if twins else om.Org)
     if spec["start_form"] == "ctor":
         owner = Owner(owner_name, **{field: mk(start)})
     else:
@@ -176,7 +181,9 @@ def run(spec, ctx):
             problems.append(f"{op} raised {type(e).__name__}: {e}"[:200])
             break
         C["operations_applied"] += 1
-        ever |= {id(v) for v in vals}
+        # what became part of the field according to Python semantics (a set keeps the element it already holds
+        # when an equal one is added)
+        ever |= {id(v) for v in model}
         ok = check(op)
         if not ok and pre_ok and key is None:
             key = {"assign_self": "self-assignment-erases-field", "iadd": "augmented-assignment-erases-field",
@@ -186,7 +193,24 @@ def run(spec, ctx):
         if not ok:
             break
     # relations: every element that ever became part of the field is recorded with its inferences
-    if not problems:
+    if not problems and twins:
+        C["relation_checks"] += 1
+        C["twin_cases"] += 1
+        sg = SymbolGraph()
+        have = {(id(r.source.instance), r.wrapped_field.public_name, id(r.target.instance)) for r in sg.relations()
+                if r.source.instance is not None and r.target.instance is not None}
+        inv = "members" if kind == "list" else "member_of"
+        for i in sorted(ever):
+            if (id(owner), field, i) not in have:
+                problems.append(f"graph lacks the relation {owner_name}.{field} -> {name_of[i]} (an element equal to, but not identical with, another one)")
+            if (i, inv, id(owner)) not in have:
+                problems.append(f"graph lacks the inverse relation {name_of[i]}.{inv} -> {owner_name}")
+        for x in model:
+            if not any(y is owner for y in getattr(x, inv)):
+                problems.append(f"{name_of[id(x)]}.{inv} lacks {owner_name}")
+        if problems and any(k in ("iadd", "ior", "setslice") for k in kinds_seen):
+            key = None
+    elif not problems:
         C["relation_checks"] += 1
         facts = {(owner_name, field, name_of[i]) for i in ever}
         exp = OC.closure(facts, {}, {})
